@@ -108,6 +108,23 @@ func VerifDir() string {
 	return "/verif"
 }
 
+// BuildDir is where ./check put the executables (.build; a development run against a scratch copy of the
+// repository uses another directory, see ./check).
+func BuildDir() string {
+	if d := os.Getenv("VERIF_BUILD"); d != "" {
+		return d
+	}
+	return filepath.Join(VerifDir(), ".build")
+}
+
+// EvidenceDir is where evidence and replay files go.
+func EvidenceDir() string {
+	if d := os.Getenv("VERIF_EVIDENCE"); d != "" {
+		return d
+	}
+	return filepath.Join(VerifDir(), "evidence")
+}
+
 type RaceReport struct {
 	Pair  string `json:"pair"`
 	Map   bool   `json:"map_class"`
@@ -301,7 +318,7 @@ func RunChild(b Batch, work string) ([]Rec, Exit) {
 
 	exe := os.Args[0]
 	if b.Race {
-		exe = filepath.Join(VerifDir(), ".build", "htlab-race")
+		exe = filepath.Join(BuildDir(), "htlab-race")
 	}
 	args := []string{exe, "child", "--batch", filepath.Join(work, "batch.json"), "--obs", obsPath, "--work", work}
 	if b.Strace != "" {
